@@ -326,6 +326,24 @@ def await_source(body, o, depth=0):
     return None
 
 
+def guarded_true(body, bb, pred):
+    """Is block `bb` reached only through the *true* edge of a bool-returning call matching pred(CallSite)?
+    Returns the guarding CallSite or None.  `!x`, `x == true`, `x != false` forms are normalised."""
+    for gbb, vals, n in body.guards_of(bb):
+        so, pos = mir.norm_bool(body.switch_origin(gbb))
+        if so[0] == "call" and pred(so[1]):
+            taken = list(vals) != ["0"] and "0" not in list(vals)
+            if list(vals) == ["0"]:
+                edge_true = False
+            elif "0" in list(vals):
+                continue
+            else:
+                edge_true = True
+            if edge_true == pos:
+                return so[1]
+    return None
+
+
 # ---- error discipline --------------------------------------------------------------------------------------
 
 PASS_THROUGH = ("ok", "err", "map", "map_err", "and_then", "or_else", "ok_or", "ok_or_else", "into", "from", "as_ref", "as_mut",
